@@ -183,3 +183,11 @@ PROPS['C06'] = dict(
                 'extraction-faithfulness obligation that parser.py is byte-identical to the TatSu translation of bql.ebnf.',
     trusted_base=['TatSu 5.7 code generator and runtime'], assumptions=[],
 )
+
+PROPS['C19'] = dict(
+    level='other', harness='h19', min_t1=0,
+    explanation='Bounded (T3) sessions in batch mode: shell output vs the renderer applied to the API result over a settings grid, .run of named queries, .set semantics '
+                '(valid / invalid / unknown incl. attribute names of the settings object), command dispatch, CLI options through click. T1 obligations on Settings and the dispatcher are '
+                'listed in the evidence as they are built.',
+    trusted_base=['cmd.Cmd.parseline, shlex.split, click'], assumptions=[],
+)
